@@ -3,6 +3,7 @@ import gens as G
 import pyimpl as P
 from oracle_util import *  # noqa
 from protocol import from_real, KEY_IDX
+import h2bars_util as U
 
 ID = "C09"
 LEAN_MODULE = ["SCoda.Props.C09", "SCoda.Props.Purity", "SCoda.Props.C16b", "SCoda.Props.Strong589", "SCoda.Props.ElemTie", "SCoda.Props.StaticTie", "SCoda.Props.RelTie2", "SCoda.Props.C09n", "SCoda.Props.AbsTie2", "SCoda.Props.StaticLink"]
@@ -59,27 +60,45 @@ CLAUSES = [
      ["SCoda.StaticLink.timesOfType_link", "SCoda.AbsTie2.getMessageTimesOfType_eq", "SCoda.AbsTie2.timesOfType_init"]),
 ]
 RULE = ("multi-track pieces (1-3 tracks, 1-5 bars, 9 signatures with boundary-aligned changes, key changes on bar lines, "
-        "tracks of unequal length, empty tracks, notes crossing bar lines) x re-quantisation on/off; "
+        "tracks of unequal length, empty tracks, notes crossing bar lines) x re-quantisation on/off x meta_track_index 0..2; since audit round 3 also: "
+        "zero-length notes (anywhere / on bar lines), two key signatures or two time signatures (different / identical) on one tick, a second key change "
+        "before the next bar line, signature events on channels 0-2, key signatures and (repeating / conflicting) time signatures on side tracks, inputs in "
+        "seven wrapper states built from plain data incl. an absolute view with the meta events of one tick in another order (add_absolute_message); "
         "non-trivial = a signature change or a note crossing a bar line or tracks of unequal length")
-ASSUMPTIONS = ["model: SCoda.splitBars (Model/Bar.lean), tied by correspondence",
-               "hypothesis of the property: signature changes fall on bar boundaries of the grid they induce; bar lengths 96*n/d are positive integers"]
+ASSUMPTIONS = ["model: SCoda.splitBars (Model/Bar.lean), tied by translation (StaticTie, for AbsCoherent meta sequences) and sampled by correspondence from relative "
+               "views and from wrapper states whose supplied absolute view holds the meta events in the model's order",
+               "hypothesis of the property: signature changes fall on bar boundaries of the grid they induce; bar lengths 96*n/d are positive integers",
+               "reading (audit R6): of two signature / key events on one tick the later one IN THE ORDER THE CALLER GAVE (relative list, or the absolute list "
+               "handed over) is the one in force; signatures and keys are those of the meta track, other tracks' key signatures are ignored, their time "
+               "signatures must repeat the one in force (otherwise: outside the hypothesis, skipped)",
+               "a BarException on an ill-formed track (unclosed / orphaned / re-triggered notes) is not judged (success is claimed for well-formed tracks)"]
 
 
-def grid_of(piece_tracks):
-    """bar grid induced by track 0's signature / key events: list of (start, len, (n, d), key)"""
-    timed, _ = rel_timed(piece_tracks[0])
-    ts = sorted([(t, (m[NUM], m[DEN])) for t, m in timed if m[TY] == TIMESIG], key=lambda x: x[0])
-    ks = sorted([(t, m[KEY]) for t, m in timed if m[TY] == KEYSIG], key=lambda x: x[0])
-    return ts, ks
+def given_meta_events(track, state="rel", abs_list=None):
+    """signature / key events of the meta track as [(tick, value, channel)] in the order in which the CALLER gave them: the order
+    of the relative list, or — when the sequence was handed over through its absolute view (`abs`, `stale-rel`, `insort` with a
+    supplied absolute list) — the order of that list.  Of two events on one tick the later one of this order is the one `in force`
+    (audit R6: the text is silent about the order inside a tick; this is the reading the oracle commits to)."""
+    if abs_list is not None and state in ("abs", "stale-rel", "insort"):
+        ts = [(m[TIME], (m[NUM], m[DEN]), m[CH]) for m in abs_list if m[TY] == TIMESIG]
+        ks = [(m[TIME], m[KEY], m[CH]) for m in abs_list if m[TY] == KEYSIG]
+        return ts, ks
+    return U.meta_events(track, "list")
 
 
-def signatures_on_grid(tracks):
-    """every time-signature change of the meta track (track 0) sits on a bar start of the grid induced by the earlier ones, every other
+def grid_of(piece_tracks, meta=0):
+    """bar grid induced by the meta track's signature / key events: lists of (tick, value)"""
+    ts, ks = U.meta_events(piece_tracks[meta], "list")
+    return [(t, v) for t, v, _ in ts], [(t, v) for t, v, _ in ks]
+
+
+def signatures_on_grid(tracks, meta=0):
+    """every time-signature change of the meta track sits on a bar start of the grid induced by the earlier ones, every other
     track only repeats the signature in force there, and all bar lengths are positive"""
-    ts, _ = grid_of(tracks)
+    ts, _ = grid_of(tracks, meta)
     end = max([rel_timed(t)[1] for t in tracks] + [t for t, _ in ts] + [0])
     start, cur = 0, (4, 4)
-    pending = sorted(ts, key=lambda x: x[0])
+    pending = list(ts)
     force = []           # (start, end, sig) per bar
     for _ in range(400):
         due = [x for x in pending if x[0] <= start]
@@ -97,7 +116,9 @@ def signatures_on_grid(tracks):
         start += step
         if start > end and not pending:
             break
-    for t in tracks[1:]:
+    for i, t in enumerate(tracks):
+        if i == meta:
+            continue
         for tick, m in rel_timed(t)[0]:
             if m[TY] == TIMESIG:
                 bar = [f for f in force if f[0] <= tick < f[1]]
@@ -106,26 +127,29 @@ def signatures_on_grid(tracks):
     return True
 
 
-def zero_length_on_barline(tracks):
-    """D18b: some track holds a note whose on and off share a tick that is a bar start of the piece"""
-    ts, _ = grid_of(tracks)
+def bar_starts_of(tracks, meta=0):
+    """bar starts of the text's grid (signature in force at each start) up to the end of the longest track"""
+    ts, _ = U.meta_events(tracks[meta], "list")
     end = max([rel_timed(t)[1] for t in tracks] + [0])
-    starts, start, cur = set(), 0, (4, 4)
-    while start <= end:
-        for (t, v) in ts:
-            if t <= start:
-                cur = v
-        starts.add(start)
-        step = 96 * cur[0] // cur[1]
-        if step <= 0:
+    starts = []
+    for (s, length, _, _) in U.text_walk(ts, [], 400):
+        if s > end:
             break
-        start += step
-    for t in tracks:
-        timed, _ = rel_timed(t)
-        # tick 0 is a bar start but no cut point: a zero-length note there is not torn apart (audit round 2)
-        if any(on == off and on > 0 and on in starts for (_, _, on, off, _) in notes_of(timed)):
-            return True
-    return False
+        starts.append(s)
+        if length <= 0:
+            break
+    return starts
+
+
+def zero_on_barline_keys(tracks, ti, meta=0):
+    """D18b: (channel, pitch) of the zero-length notes of track `ti` that sit on a bar start AFTER tick 0 (tick 0 is a bar start
+    but no cut point: a zero-length note there is not torn apart — audit round 2)"""
+    starts = set(bar_starts_of(tracks, meta)) - {0}
+    return {(c, p) for (c, p, _, _) in U.zero_length_keys(tracks[ti], at=starts)}
+
+
+def zero_length_on_barline(tracks, meta=0):
+    return any(zero_on_barline_keys(tracks, ti, meta) for ti in range(len(tracks)))
 
 
 def o_split_bars(inp):
@@ -134,68 +158,89 @@ def o_split_bars(inp):
     requant = inp["requant"]
     if not tracks:
         return [("~skip:no-sequences", "")]
+    meta = inp.get("meta", 0)
+    if not (0 <= meta < len(tracks)):
+        return [("~skip:bad-meta-index", "")]
     states = inp.get("states") or ["rel"] * len(tracks)
-    seqs = [P.seq_in_state(t, st) for t, st in zip(tracks, states)]
-    # what each input holds BEFORE the call, read through a copy (a state built through the absolute view has the canonical order of
-    # simultaneous events, which need not be the order of `t`)
-    held_before = [rel_timed(P.content_of(s)) for s in seqs]
+    abs_lists = inp.get("abs") or [None] * len(tracks)
+    abs_lists = [None if a is None else [tuple(m) for m in a] for a in abs_lists]
+    # the inputs are built from plain data (h2bars_util.build_state); what each holds BEFORE and AFTER the call is read off the view
+    # objects attribute by attribute and judged against the plain data — not through copy() (audit round 3, table of part 3)
+    built = [U.build_state(t, st, a) for t, st, a in zip(tracks, states, abs_lists)]
+    seqs = [b[0] for b in built]
+    before = [U.raw_views(s) for s in seqs]
+    for t, b, bv, st in zip(tracks, built, before, states):
+        if U.views_hold(bv, t, b[1]) is not None:
+            return [("~skip:state-not-built:" + st, "")]
     try:
-        tb = Sequence.sequences_split_bars(seqs, meta_track_index=0, quantise_note_lengths=requant)
+        tb = Sequence.sequences_split_bars(seqs, meta_track_index=meta, quantise_note_lengths=requant)
     except Exception as e:
         # hypothesis of the property: signature changes fall on bar boundaries of the grid they induce (a shrunk input may have left it)
-        if not signatures_on_grid(tracks):
+        if not signatures_on_grid(tracks, meta):
             return [("~skip:not-boundary-aligned", "")]
-        return [("raises", f"{type(e).__name__}: {e}")]
+        if any(wf_violations(rel_timed(t)[0]) for t in tracks):
+            # success is claimed for well-formed tracks (Strong589.split_bars_succeeds_requant); an unclosed note-on is given the standard length by
+            # the re-quantiser and may overrun its bar.  Only a shrunk input gets here: the generators draw well-formed tracks.
+            return [("~skip:raises-on-ill-formed-track", "")]
+        return [("raises", U.Detail(f"{type(e).__name__}: {e}", exc=type(e).__name__, msg=str(e)))]
     fails = []
-    for t, s, st, hb in zip(tracks, seqs, states, held_before):
-        if (st == "rel" and [from_real(m) for m in s.rel._messages] != t) or rel_timed(P.content_of(s)) != hb:
-            fails.append(("inputs", "an input sequence changed"))
+    for ti, (t, s, b, bv) in enumerate(zip(tracks, seqs, built, before)):
+        av = U.raw_views(s)
+        for name in ("rel", "abs"):
+            if bv[name] is not None and av[name] != bv[name]:
+                fails.append(("inputs", f"track {ti}: the {name} view of the input changed (or went stale)"))
+        bad = U.views_hold(av, t, b[1])
+        if bad:
+            fails.append(("inputs", f"track {ti}: {bad}"))
     counts = {len(b) for b in tb}
-    if len(counts) != 1:
+    if len(tb) != len(tracks):
+        fails.append(("equal-counts", f"{len(tb)} bar lists for {len(tracks)} tracks"))
+        return fails
+    if len(counts) != 1 or 0 in counts:
         fails.append(("equal-counts", f"bar counts {[len(b) for b in tb]}"))
         return fails
-    ts, ks = grid_of(tracks)
+    ts, ks = given_meta_events(tracks[meta], states[meta], abs_lists[meta])
     durs = [rel_timed(t)[1] for t in tracks]
     maxdur = max(durs + [0])
-    # walk the bar grid
-    start = 0
-    cur_sig, cur_key = (4, 4), None
     nb = len(tb[0])
+    walk = U.text_walk(ts, ks, nb)
+    if len(walk) < nb:
+        return [("~skip:non-positive-bar-length", "")]
     bar_starts = []
-    for k in range(nb):
+    bars_plain = [[[from_real(m) for m in b.sequence.rel._messages] for b in bars] for bars in tb]
+    for k, (start, length, cur_sig, cur_key) in enumerate(walk):
         bar_starts.append(start)
-        for (t, v) in ts:
-            if t <= start:
-                cur_sig = v
-        for (t, v) in ks:
-            if t <= start:
-                cur_key = v
         # hypothesis: changes are boundary aligned
-        if any(start < t < start + 96 * cur_sig[0] // cur_sig[1] for t, _ in ts):
+        if any(start < t < start + length for t, _, _ in ts):
             return [("~skip:not-boundary-aligned", "")]
-        length = 96 * cur_sig[0] // cur_sig[1]
         for ti, bars in enumerate(tb):
             b = bars[k]
-            rel = [from_real(m) for m in b.sequence.rel._messages]
+            rel = bars_plain[ti][k]
             _, d = rel_timed(rel)
             if d != length:
-                fails.append(("bar-length", f"track {ti} bar {k} lasts {d}, signature {cur_sig} gives {length}"))
-            if (b.time_signature_numerator, b.time_signature_denominator) != cur_sig:
-                fails.append(("bar-sig", f"track {ti} bar {k} carries {(b.time_signature_numerator, b.time_signature_denominator)}, in force {cur_sig}"))
+                fails.append(("bar-length", U.Detail(f"track {ti} bar {k} lasts {d}, signature {cur_sig} gives {length}",
+                                                      track=ti, bar=k, got=d, want=length)))
+            carried = (b.time_signature_numerator, b.time_signature_denominator)
+            if carried != cur_sig:
+                fails.append(("bar-sig", U.Detail(f"track {ti} bar {k} carries {carried}, in force {cur_sig}", track=ti, bar=k, got=carried, want=cur_sig)))
             bk = None if b.key_signature is None else KEY_IDX[b.key_signature]
             if bk != cur_key:
-                fails.append(("bar-key", f"track {ti} bar {k} carries key {bk}, in force {cur_key}"))
-        start += length
-    end = start
-    if maxdur > 0:
-        last_len = 96 * cur_sig[0] // cur_sig[1]
-        if not (maxdur <= end and end - last_len < maxdur):
-            fails.append(("coverage", f"bars end at {end} (last bar {last_len}), longest track {maxdur}"))
-    for ti, (t, bars) in enumerate(zip(tracks, tb)):
+                fails.append(("bar-key", U.Detail(f"track {ti} bar {k} carries key {bk}, in force {cur_key}", track=ti, bar=k, got=bk, want=cur_key)))
+            # "carries that signature": the bar's own sequence starts with exactly that signature event and holds no other (C10's invariant,
+            # here for bars made by the splitter — also from side tracks that repeat the signature in force)
+            tsi = [(i, (m[NUM], m[DEN])) for i, m in enumerate(rel) if m[TY] == TIMESIG]
+            if tsi != [(0, carried)]:
+                fails.append(("bar-one-sig", f"track {ti} bar {k} carries {carried} but its sequence holds time signatures {tsi}"))
+    # coverage: about the bars as they are (their lengths are judged above)
+    real = [rel_timed(r)[1] for r in bars_plain[0]]
+    end = sum(real)
+    if maxdur > 0 and not (maxdur <= end and end - real[-1] < maxdur):
+        fails.append(("coverage", f"bars end at {end} (last bar {real[-1]}), longest track {maxdur}"))
+    lines = set(bar_starts) | {bar_starts[-1] + walk[-1][1]}
+    for ti, t in enumerate(tracks):
         laid = []
         off = 0
-        for b in bars:
-            rel = [from_real(m) for m in b.sequence.rel._messages]
+        for rel in bars_plain[ti]:
             tp, d = rel_timed(rel)
             laid.extend((x + off, m) for x, m in tp)
             off += d
@@ -204,45 +249,76 @@ def o_split_bars(inp):
             continue        # the sounding clauses are about notes: a track with unclosed / orphaned / re-triggered notes has no sounding set to conserve
         a, b_ = sounding(src), sounding(laid)
         if not requant:
-            if a != b_:
-                fails.append(("sound-exact", f"track {ti}: {a} vs {b_}"))
+            for key in sorted(set(a) | set(b_)):
+                if a.get(key) != b_.get(key):
+                    fails.append(("sound-exact", U.Detail(f"track {ti}: {key} sounds {a.get(key)} in the track, {b_.get(key)} in the bars",
+                                                          track=ti, key=key, orig=a.get(key), bars=b_.get(key))))
         else:
             # "only boundary-cut fragments may shrink": a note that no bar line cuts must come back with its onset and its end
-            lines = set(bar_starts) | {end}
-            got = {(c_, p_, on_, off_) for (c_, p_, on_, off_, _) in notes_of(laid)}
+            laid_notes = notes_of(laid)
+            got = {(c_, p_, on_, off_) for (c_, p_, on_, off_, _) in laid_notes}
             for (c_, p_, on_, off_, _) in notes_of(src):
                 if on_ < off_ and not any(on_ < x < off_ for x in lines) and (c_, p_, on_, off_) not in got:
-                    fails.append(("shrink-uncut", f"track {ti}: note {(c_, p_, on_, off_)} is cut by no bar line but does not come back unchanged"))
+                    back = sorted((o1, o2) for (c1, p1, o1, o2, _) in laid_notes if (c1, p1) == (c_, p_) and o1 == on_)
+                    fails.append(("shrink-uncut", U.Detail(f"track {ti}: note {(c_, p_, on_, off_)} is cut by no bar line but does not come back unchanged "
+                                                           f"(notes of that key with that onset in the bars: {back})",
+                                                           track=ti, note=(c_, p_, on_, off_), key=(c_, p_), back=back)))
             # subset: every sounding interval of the bars lies inside an original one
             for key, ivs in b_.items():
                 for (s_, e_) in ivs:
-                    if not any(s0 <= s_ and e_ <= e0 for (s0, e0) in a.get(key, [])):
-                        fails.append(("sound-subset", f"track {ti}: interval {(s_, e_)} of {key} not inside the original {a.get(key)}"))
+                    if not any(s0 <= s_ and e_ is not None and e0 is not None and e_ <= e0 for (s0, e0) in a.get(key, [])):
+                        fails.append(("sound-subset", U.Detail(f"track {ti}: interval {(s_, e_)} of {key} not inside the original {a.get(key)}",
+                                                               track=ti, key=key, interval=(s_, e_))))
     return fails
 
 
-def two_changes_in_one_bar(ts, ks):
-    """some bar of the grid (walked with one change per bar, as the implementation does) has two changes of one kind due at its start"""
-    for seq in (ks, ts):
-        ticks = sorted(t for t, _ in seq)
-        if len(ticks) != len(set(ticks)):
-            return True
-    # changes on different ticks but inside one bar are excluded by the property's hypothesis (bar boundaries) for signatures; for keys the
-    # implementation applies a change at the first bar start at or after its tick, one per bar
-    start, cur, pending_k = 0, (4, 4), sorted(ks, key=lambda x: x[0])
-    tsq = sorted(ts, key=lambda x: x[0])
-    for _ in range(200):
-        if tsq and tsq[0][0] <= start:
-            cur = tsq.pop(0)[1]
-        due = [k for k in pending_k if k[0] <= start]
-        if len(due) > 1:
-            return True
-        if due:
-            pending_k.remove(due[0])
-        step = 96 * cur[0] // cur[1]
-        if step <= 0 or not (pending_k or tsq):
-            break
-        start += step
+def _tracks_of(f):
+    return [[tuple(m) for m in t] for t in f["input"]["tracks"]]
+
+
+def _meta_given(f):
+    inp = f["input"]
+    tracks = _tracks_of(f)
+    meta = inp.get("meta", 0)
+    states = inp.get("states") or ["rel"] * len(tracks)
+    abs_lists = inp.get("abs") or [None] * len(tracks)
+    a = abs_lists[meta]
+    return tracks, meta, given_meta_events(tracks[meta], states[meta], None if a is None else [tuple(m) for m in a])
+
+
+def lag_explains(f, order):
+    """K2: is this bar-key / bar-sig / bar-length failure what the one-change-per-bar queue (D23, `Strong589.bar_key_lag`) produces?
+    The failing bar must carry exactly the value the lag model delivers to THAT bar, and that queue must be lagging there (more
+    changes due at the bar's start than bars have started since: `bar_key_caught_up` says there is no failure otherwise)."""
+    d = U.data_of(f)
+    if "bar" not in d:
+        return False
+    tracks, meta, (ts, ks) = _meta_given(f)
+    reordered_ts = reordered_ks = False
+    if order == "canonical":
+        keyf = lambda x: (x[0], -1 if x[2] is None else x[2])      # noqa: E731
+        ts2, ks2 = sorted(ts, key=keyf), sorted(ks, key=keyf)
+        reordered_ts, reordered_ks = ts2 != ts, ks2 != ks          # the given order IS the canonical one: nothing for D36 to explain
+        ts, ks = ts2, ks2
+    k = d["bar"]
+    lag = U.lag_walk(ts, ks, k + 1)
+    if len(lag) <= k:
+        return False
+    _, length, sig, key, sig_lag, key_lag = lag[k]
+    if order == "canonical":
+        # D36: the queue holds the events of one tick in another order than given (a reordered signature queue displaces the whole grid)
+        sig_behind = reordered_ts
+        key_behind = reordered_ks or reordered_ts
+    else:
+        # a signature queue that is behind at bar k or was behind at an earlier bar (then the whole grid is displaced); the key queue behind at k
+        sig_behind = any(x[4] for x in lag[:k + 1])
+        key_behind = key_lag or sig_behind
+    if f["clause"] == "bar-key":
+        return key_behind and d["got"] == key
+    if f["clause"] == "bar-sig":
+        return sig_behind and tuple(d["got"]) == tuple(sig)
+    if f["clause"] == "bar-length":
+        return sig_behind and d["got"] == length
     return False
 
 
@@ -250,77 +326,270 @@ D18C_EXAMPLE = {"requant": True, "tracks": [[G.pm(WAIT, 0, 10), G.pm(ON, 0, None
                                              G.pm(WAIT, 0, 10), G.pm(ON, 0, None, note=60, vel=64), G.pm(WAIT, 0, 10),
                                              G.pm(OFF, 0, None, note=60), G.pm(WAIT, 0, 100)]]}
 D23_EXAMPLE = {"requant": False, "tracks": [[G.pm(KEYSIG, 0, None, key=0), G.pm(KEYSIG, 0, None, key=7), G.pm(WAIT, 0, 200)]]}
+# D23, second member: a second key change before the next bar line (tick 10 and tick 96 are both due at bar 1)
+D23_EXAMPLE2 = {"requant": False, "tracks": [[G.pm(WAIT, 0, 10), G.pm(KEYSIG, 0, None, key=3), G.pm(WAIT, 0, 86), G.pm(KEYSIG, 0, None, key=5),
+                                              G.pm(WAIT, 0, 200)]]}
 D18B_EXAMPLE = {"requant": False, "tracks": [[G.pm(WAIT, 0, 96), G.pm(ON, 0, None, note=60, vel=64), G.pm(OFF, 0, None, note=60),
                                                G.pm(WAIT, 0, 10), G.pm(ON, 0, None, note=60, vel=64), G.pm(WAIT, 0, 10),
                                                G.pm(OFF, 0, None, note=60), G.pm(WAIT, 0, 5)]]}
+D26_EXAMPLE = {"requant": True, "tracks": [[G.pm(ON, 0, None, note=60, vel=64), G.pm(WAIT, 0, 10), G.pm(OFF, 0, None, note=60), G.pm(WAIT, 0, 86)]]}
+# D34 (audit K1a): a zero-length note 22 ticks before the bar line, re-quantisation on
+D34_EXAMPLE = {"requant": True, "tracks": [[G.pm(WAIT, 0, 74), G.pm(ON, 0, None, note=60, vel=64), G.pm(OFF, 0, None, note=60)]]}
+# D35 (audit K1b): two different time signatures on one tick
+D35_EXAMPLE = {"requant": False, "tracks": [[G.pm(TIMESIG, 0, None, num=3, den=4), G.pm(TIMESIG, 0, None, num=4, den=4), G.pm(WAIT, 0, 200)]]}
+D35_EXAMPLE2 = {"requant": False, "tracks": [[G.pm(TIMESIG, 0, None, num=4, den=4), G.pm(TIMESIG, 0, None, num=4, den=4), G.pm(WAIT, 0, 96),
+                                              G.pm(TIMESIG, 0, None, num=7, den=8), G.pm(WAIT, 0, 84)]]}
+# D36 (audit R6): two key signatures on one tick, given as [G on channel 1, D on channel 0]; from a relative view the splitter's queue holds
+# them in the order of the absolute view's sort key (channel): bars carry D, G, G — from an absolute view built by add_absolute_message in
+# this order the queue is [G, D]: bars carry G, D, D (D23).  The key in force after the tick (the later event as given) is D.
+_R6_REL = [G.pm(KEYSIG, 1, None, key=1), G.pm(KEYSIG, 0, None, key=2), G.pm(ON, 0, None, note=60, vel=90), G.pm(WAIT, 0, 288), G.pm(OFF, 0, None, note=60)]
+D36_EXAMPLE = {"requant": False, "tracks": [_R6_REL]}
+R6_INSORT_EXAMPLE = {"requant": False, "tracks": [_R6_REL], "states": ["insort"], "abs": [U.abs_of_rel(_R6_REL)]}
 
 
 def setup(ctx):
     ctx.oracle("split_bars", o_split_bars)
-
-    def kf_d18b(f):
-        return f["clause"] in ("sound-exact", "sound-subset") and zero_length_on_barline([[tuple(m) for m in t] for t in f["input"]["tracks"]])
-    ctx.kf_predicates["D18b"] = kf_d18b
-
-    def kf_d18c(f):
-        # re-quantisation on and some track holds a zero-length note (anywhere)
-        ts = [[tuple(m) for m in t] for t in f["input"]["tracks"]]
-        return f["clause"] == "sound-subset" and f["input"]["requant"] and \
-            any(on == off for t in ts for (_, _, on, off, _) in notes_of(rel_timed(t)[0]))
-    ctx.kf_predicates["D18c"] = kf_d18c
-
-    def kf_d23(f):
-        # two key changes (or two time-signature changes) of the meta track are due at one bar start
-        if f["clause"] not in ("bar-key", "bar-sig", "bar-length", "coverage"):
-            return False
-        ts, ks = grid_of([[tuple(m) for m in t] for t in f["input"]["tracks"]])
-        return two_changes_in_one_bar(ts, ks)
-    ctx.kf_predicates["D23"] = kf_d23
-
-    def kf_d26(f):
-        # re-quantisation on: some note that no bar line cuts has a length that is not one of the default note values (data of the finding)
-        if f["clause"] != "shrink-uncut" or not f["input"]["requant"]:
-            return False
-        ts = [[tuple(m) for m in t] for t in f["input"]["tracks"]]
-        return any((off - on) not in _allowed for t in ts for (_, _, on, off, _) in notes_of(rel_timed(t)[0]))
     import json as _json
     import os as _os
     with open(_os.path.join(_os.path.dirname(_os.path.dirname(_os.path.dirname(_os.path.abspath(__file__)))), "known_findings.json")) as _f:
-        _allowed = set(next(x for x in _json.load(_f)["findings"] if x["id"] == "D26")["default_note_values"])
+        _kf = {x["id"]: x for x in _json.load(_f)["findings"]}
+    _allowed = set(_kf["D26"]["default_note_values"])
+    _std = _kf.get("D34", {}).get("standard_length", 24)
+
+    def kf_d18b(f):
+        # the damaged (channel, pitch) is the key of a zero-length note of THAT track on a bar start after tick 0 (audit K5)
+        d = U.data_of(f)
+        if f["clause"] not in ("sound-exact", "sound-subset", "shrink-uncut") or "key" not in d:
+            return False
+        return tuple(d["key"]) in zero_on_barline_keys(_tracks_of(f), d["track"], f["input"].get("meta", 0))
+    ctx.kf_predicates["D18b"] = kf_d18b
+
+    def kf_d18c(f):
+        # re-quantisation on, and the damaged (channel, pitch) is the key of a zero-length note (anywhere) of THAT track (audit K5)
+        d = U.data_of(f)
+        if f["clause"] not in ("sound-subset", "shrink-uncut") or not f["input"]["requant"] or "key" not in d:
+            return False
+        return tuple(d["key"]) in {(c, p) for (c, p, _, _) in U.zero_length_keys(_tracks_of(f)[d["track"]])}
+    ctx.kf_predicates["D18c"] = kf_d18c
+
+    def kf_d23(f):
+        # the failing bar carries exactly what the one-change-per-bar queue delivers to it while that queue is behind (audit K2)
+        return f["clause"] in ("bar-key", "bar-sig", "bar-length") and lag_explains(f, "list")
+    ctx.kf_predicates["D23"] = kf_d23
+
+    def kf_d36(f):
+        # same, with the queue in the order of the absolute view's sort key (tick, channel) where that differs from the given order (audit R6)
+        return f["clause"] in ("bar-key", "bar-sig", "bar-length") and lag_explains(f, "canonical")
+    ctx.kf_predicates["D36"] = kf_d36
+
+    def kf_d26(f):
+        # re-quantisation on: THE failing note has a length outside the stored default note values and comes back with the largest stored
+        # value not above its length — or not at all when there is none (audit K3)
+        d = U.data_of(f)
+        if f["clause"] != "shrink-uncut" or not f["input"]["requant"] or "note" not in d:
+            return False
+        c, p, on, off = d["note"]
+        if (off - on) in _allowed:
+            return False
+        best = U.requant_prediction(off - on, _allowed)
+        return [tuple(x) for x in d["back"]] == ([] if best is None else [(on, on + best)])
     ctx.kf_predicates["D26"] = kf_d26
+
+    def kf_d34(f):
+        # re-quantisation on, `BarException: Bar capacity exceeded`, and some track holds a zero-length note less than the standard length
+        # (stored: 24) before the end of its bar: the orphaned note-on is closed `standard_length` later, past the bar line
+        d = U.data_of(f)
+        if f["clause"] != "raises" or not f["input"]["requant"] or d.get("exc") != "BarException" or d.get("msg") != "Bar capacity exceeded":
+            return False
+        tracks, meta, (ts, _) = _meta_given(f)
+        total = max([rel_timed(t)[1] for t in tracks] + [0])
+        # bar ends of the text's grid and — when a signature queue is behind (D23) — of the grid the splitter really walks
+        grids = [[s + L for (s, L, _, _) in U.text_walk(ts, [], 400) if s <= total]]
+        lag = U.lag_walk(ts, [], 400)
+        if any(x[4] for x in lag if x[0] <= total):
+            grids.append([x[0] + x[1] for x in lag if x[0] <= total])
+        for t in tracks:
+            for (c, p, tick, _) in U.zero_length_keys(t):
+                for ends in grids:
+                    e = next((x for x in ends if x > tick), None)
+                    if e is not None and tick + _std > e:
+                        return True
+        return False
+    ctx.kf_predicates["D34"] = kf_d34
+
+    def kf_d35(f):
+        # a BarException about time signatures, and it is exactly the one that D23's one-change-per-bar queue leads to on this input (two
+        # time signatures on one tick: the bar takes the first and holds both events, or a duplicate keeps the queue one bar behind)
+        d = U.data_of(f)
+        if f["clause"] != "raises" or d.get("exc") != "BarException":
+            return False
+        tracks, meta, (ts, _) = _meta_given(f)
+        return bool(U.same_tick_pairs(ts, different=False)) and d.get("msg") == U.lag_predicts_exception(tracks, meta, ts)
+    ctx.kf_predicates["D35"] = kf_d35
+
+
+def add_same_tick_pairs(rng, ctx, track, bars):
+    """audit K1 / R1: two signatures of a kind on one tick of the meta track, and a second change before the next bar line"""
+    kind = rng.choice(["key-pair", "key-pair", "key-pair-channels", "ts-pair-different", "ts-pair-identical", "ts-pair-final-tick", "key-midbar", "ts-midbar"])
+    start, length, n, d = rng.choice(bars)
+    ctx.count("same-tick:" + kind)
+    if kind in ("key-pair", "key-pair-channels"):
+        k1, k2 = rng.sample(range(15), 2)
+        c1, c2 = (0, 0) if kind == "key-pair" else rng.choice([(1, 0), (2, 1), (0, 1), (1, 0)])
+        return U.insert_at_tick(track, start, [G.pm(KEYSIG, c1, None, key=k1), G.pm(KEYSIG, c2, None, key=k2)], before=rng.random() < 0.5)
+    if kind == "ts-pair-different":
+        other = rng.choice([s for s in G.SIGS if s != (n or 4, d or 4)])
+        # before the signature already on that tick (the grid of the text stays the piece's grid) or after it (the pair's last one is in force)
+        pair = [G.pm(TIMESIG, 0, None, num=other[0], den=other[1])] + ([] if n else [G.pm(TIMESIG, 0, None, num=4, den=4)])
+        return U.insert_at_tick(track, start, pair, before=True)
+    if kind == "ts-pair-identical":
+        sig = (n or 4, d or 4)
+        return U.insert_at_tick(track, start, [G.pm(TIMESIG, 0, None, num=sig[0], den=sig[1])] * (1 if n else 2), before=rng.random() < 0.5)
+    if kind == "ts-pair-final-tick":
+        # on the last tick of the meta track (where split drops zero-time events, D8) beside a longer track: the Lean witness of bar_sig_statement_false
+        _, dur = rel_timed(track)
+        end = bars[-1][0] + bars[-1][1]
+        a, b = rng.sample(G.SIGS, 2)
+        return track + ([G.pm(WAIT, 0, end - dur)] if end > dur else []) + [G.pm(TIMESIG, 0, None, num=a[0], den=a[1]), G.pm(TIMESIG, 0, None, num=b[0], den=b[1])]
+    if kind == "key-midbar":
+        # a key change inside the bar and another on the next bar line: both are due at the next bar start
+        t1 = start + rng.randint(1, max(1, length - 1))
+        tr = U.insert_at_tick(track, t1, [G.pm(KEYSIG, 0, None, key=rng.randrange(15))])
+        return U.insert_at_tick(tr, start + length, [G.pm(KEYSIG, 0, None, key=rng.randrange(15))])
+    # a second time-signature change before the next bar line: outside the property's hypothesis (the oracle skips it), counted
+    t1 = start + rng.randint(1, max(1, length - 1))
+    other = rng.choice(G.SIGS)
+    return U.insert_at_tick(track, t1, [G.pm(TIMESIG, 0, None, num=other[0], den=other[1])])
+
+
+def add_side_signatures(rng, ctx, track, bars):
+    """audit table, C09: signature / key events on a track that is NOT the meta track: key signatures anywhere (the bar's key is the meta
+    track's), time signatures repeating the one in force on a bar start (accepted; the bar still holds exactly one), rarely a conflicting one
+    (outside the hypothesis: BarException, skipped by the oracle)"""
+    _, dur = rel_timed(track)
+    out = track
+    for _ in range(rng.choice([1, 1, 2])):
+        r = rng.random()
+        start, length, n, d = rng.choice(bars)
+        if r < 0.45:
+            out = U.insert_at_tick(out, rng.randint(0, max(1, dur)), [G.pm(KEYSIG, 0, None, key=rng.randrange(15))])
+            ctx.count("side-track:key-signature")
+        elif r < 0.9:
+            if start <= dur:
+                out = U.insert_at_tick(out, start, [G.pm(TIMESIG, 0, None, num=n or 4, den=d or 4)], before=rng.random() < 0.5)
+                ctx.count("side-track:time-signature-in-force")
+        else:
+            if start <= dur:
+                other = rng.choice([s for s in G.SIGS if s != (n or 4, d or 4)])
+                out = U.insert_at_tick(out, start, [G.pm(TIMESIG, 0, None, num=other[0], den=other[1])])
+                ctx.count("side-track:time-signature-conflicting")
+    return out
+
+
+def shuffle_same_tick(rng, a):
+    """an absolute list with the messages of each tick in another order (what add_absolute_message leaves behind: insertion order); note-offs
+    stay before the note-ons of their tick and a note-on before its own note-off, so that the notes stay what they were"""
+    out, i = [], 0
+    while i < len(a):
+        j = i
+        while j < len(a) and a[j][TIME] == a[i][TIME]:
+            j += 1
+        grp = list(a[i:j])
+        meta = [m for m in grp if m[TY] in (TIMESIG, KEYSIG)]
+        if len(meta) > 1:
+            rng.shuffle(meta)
+            it = iter(meta)
+            grp = [next(it) if m[TY] in (TIMESIG, KEYSIG) else m for m in grp]
+        out.extend(grp)
+        i = j
+    return out
 
 
 def generate(ctx):
     rng = ctx.rng
-    ctx.check("split_bars", D18B_EXAMPLE)      # the recorded instances of the known findings
-    ctx.check("split_bars", D18C_EXAMPLE)
-    ctx.check("split_bars", D23_EXAMPLE)
-    ctx.check("split_bars", {"requant": True, "tracks": [[G.pm(ON, 0, None, note=60, vel=64), G.pm(WAIT, 0, 10), G.pm(OFF, 0, None, note=60), G.pm(WAIT, 0, 86)]]})   # D26
-    for i in range(ctx.n(120, 3000)):
+    for ex in (D18B_EXAMPLE, D18C_EXAMPLE, D23_EXAMPLE, D23_EXAMPLE2, D26_EXAMPLE, D34_EXAMPLE, D35_EXAMPLE, D35_EXAMPLE2, D36_EXAMPLE, R6_INSORT_EXAMPLE):
+        ctx.check("split_bars", ex)      # the recorded instances of the known findings
+    # the same content as D36_EXAMPLE / R6_INSORT_EXAMPLE in every wrapper state: what the bars carry depends on the state (audit R6)
+    for st in U.STATES:
+        ctx.check("split_bars", {"requant": False, "tracks": [_R6_REL], "states": [st]})
+    for i in range(ctx.n(400, 4000)):
         piece = G.gen_piece(rng, key_changes=True, unequal=rng.random() < 0.5, tail_ok=True, values=[6, 12, 24, 36, 48, 96, 5])
+        tracks = [list(t) for t in piece["tracks"]]
+        bars = piece["bars"]
+        plain = True                  # the shapes the generator drew before audit round 3 (the correspondence is run on all shapes)
         if rng.random() < 0.35:
             # multi-channel tracks: a rest that crosses a bar line may carry another channel than the note held across it
-            piece["tracks"] = [piece["tracks"][0]] + [G.spread_channels(rng, t) for t in piece["tracks"][1:]] \
-                if rng.random() < 0.5 else [G.spread_channels(rng, t) for t in piece["tracks"]]
+            tracks = [tracks[0]] + [G.spread_channels(rng, t) for t in tracks[1:]] \
+                if rng.random() < 0.5 else [G.spread_channels(rng, t) for t in tracks]
             ctx.count("multi-channel-tracks")
+        if rng.random() < 0.3:
+            # zero-length notes: anywhere, or on bar lines (audit K1)
+            j = rng.randrange(len(tracks))
+            chans = tuple(sorted({m[CH] for m in tracks[j] if m[TY] == ON})) or (0,)
+            if rng.random() < 0.5:
+                tracks[j] = U.inject_zero_notes(rng, tracks[j], channels=chans, pitches=(60, 61, 62))
+                ctx.count("zero-length-note:anywhere")
+            else:
+                tracks[j] = U.inject_zero_notes(rng, tracks[j], ticks=[b[0] for b in bars] + [bars[-1][0] + bars[-1][1]], channels=chans, pitches=(60, 61, 62))
+                ctx.count("zero-length-note:on-bar-line")
+            plain = False
+        if rng.random() < 0.25:
+            tracks[0] = add_same_tick_pairs(rng, ctx, tracks[0], bars)
+            plain = False
+        if len(tracks) > 1 and rng.random() < 0.35:
+            j = rng.randrange(1, len(tracks))
+            tracks[j] = add_side_signatures(rng, ctx, tracks[j], bars)
+            plain = False
+        if rng.random() < 0.15:
+            # signature / key events of the meta track on other channels than 0 (the absolute view sorts the events of one tick by channel)
+            tracks[0] = [((m[0], rng.choice([0, 1, 2])) + tuple(m[2:])) if m[TY] in (TIMESIG, KEYSIG) else m for m in tracks[0]]
+            ctx.count("meta-events-on-other-channels")
+        meta = 0
+        if len(tracks) > 1 and rng.random() < 0.4:
+            # the meta track is not the first one (audit table: meta_track_index was always 0)
+            meta = rng.randrange(1, len(tracks))
+            tracks[0], tracks[meta] = tracks[meta], tracks[0]
+        ctx.count("meta-index:%d" % meta)
         requant = rng.random() < 0.5
-        nt = len(piece["sigs"]) > 1 or len(set(rel_timed(t)[1] for t in piece["tracks"])) > 1
-        ctx.case((piece["tracks"], requant), nt)
+        nt = len(piece["sigs"]) > 1 or len(set(rel_timed(t)[1] for t in tracks)) > 1
+        ctx.case((tracks, requant, meta), nt)
         ctx.count("requant" if requant else "exact")
-        ctx.count("bars:%d" % len(piece["bars"]))
-        ctx.check("split_bars", {"tracks": piece["tracks"], "requant": requant})
+        ctx.count("bars:%d" % len(bars))
+        if any(U.zero_length_keys(t) for t in tracks):
+            ctx.count("zero-length-note:" + ("requant" if requant else "exact"))
+        inp = {"tracks": tracks, "requant": requant}
+        if meta:
+            inp["meta"] = meta
+        ctx.check("split_bars", inp)
         if i % 2 == 0:
-            sts = [rng.choice(P.SEQ_STATES) for _ in piece["tracks"]]
+            sts = [rng.choice(U.STATES + ["churned", "insort"]) for _ in tracks]
             ctx.count("wrapper-states")
-            trs = piece["tracks"]
+            trs = tracks
             if rng.random() < 0.5:
                 # one track ends in whole bars of silence (the rest that makes it the longest may live in only one of its views)
                 j = rng.randrange(len(trs))
-                last = piece["bars"][-1][1]
+                last = bars[-1][1]
                 gap = max(0, piece["total"] - rel_timed(trs[j])[1])
                 trs = [list(t) for t in trs]
                 trs[j] = trs[j] + [G.pm(WAIT, 0, gap + last * rng.randint(1, 2))]
                 ctx.count("wrapper-states:trailing-silence")
-            ctx.check("split_bars", {"tracks": trs, "requant": requant, "states": sts})
-        ctx.corr("splitBars", P.op_splitBars(0, requant, piece["tracks"]))
-        ctx.sample({"tracks": [t[:6] for t in piece["tracks"]], "requant": requant})
+            inp2 = dict(inp, tracks=trs, states=sts)
+            if sts[meta] in ("abs", "stale-rel", "insort") and rng.random() < 0.7:
+                # the meta track handed over through its absolute view with the signature events of one tick in another order (audit R6)
+                ab = [None] * len(trs)
+                ab[meta] = shuffle_same_tick(rng, U.abs_of_rel(trs[meta]))
+                if ab[meta] != U.abs_of_rel(trs[meta]):
+                    ctx.count("wrapper-states:meta-absolute-view-in-another-same-tick-order")
+                inp2["abs"] = ab
+            ctx.check("split_bars", inp2)
+            # the correspondence from wrapper states whose relative view is the given list and whose absolute view (which the splitter reads the
+            # signatures from) was supplied by the harness: model = code as long as that view holds the meta events in the model's order
+            if U.meta_events(trs[meta], "list") == U.meta_events(trs[meta], "canonical"):
+                cst = [rng.choice(["both", "both", "stale-abs", "rel"]) for _ in trs]
+                ctx.corr("splitBars", U.op_splitBars_states(meta, requant, trs, cst), meta={"states": cst})
+                ctx.count("corr:splitBars:from-wrapper-states")
+            else:
+                ctx.count("corr:splitBars:skipped(meta events of one tick not in the model's order: judged by the oracle, D36)")
+        ctx.corr("splitBars", P.op_splitBars(meta, requant, tracks))
+        ctx.count("corr:splitBars:" + ("plain-shapes" if plain else "new-shapes"))
+        ctx.sample({"tracks": [t[:6] for t in tracks], "requant": requant, "meta": meta})
